@@ -192,6 +192,7 @@ func (ex *Exec) call(f *Frame, st *State, x *ssa.Call, b *ssa.BasicBlock, i int,
 	ex.havocked[name]++
 	pure := ex.prog.CS.isPure(name)
 	if !pure {
+		st.mapEpoch++
 		seen := map[interface{}]bool{}
 		for _, a := range args {
 			w.havocReach(st, a, seen)
@@ -292,6 +293,9 @@ func (ex *Exec) applyContract(f *Frame, st *State, x ssa.Instruction, con *Contr
 	pre := st.clone()
 	// frame
 	if !con.Pure {
+		if !(con.HasMod && len(con.Modifies) == 0) {
+			st.mapEpoch++
+		}
 		seen := map[interface{}]bool{}
 		if con.HasMod {
 			ec := ex.calleeCtx(f, st, nil, callee, vars)
@@ -308,7 +312,11 @@ func (ex *Exec) applyContract(f *Frame, st *State, x ssa.Instruction, con *Contr
 							panic(r)
 						}
 					}()
-					if ex.havocLocation(st, ec, m) {
+					if strings.HasPrefix(m, "reach(") && strings.HasSuffix(m, ")") {
+						// everything reachable from the value (e.g. the object behind an
+						// interface-typed field), not the location holding it
+						m = m[len("reach(") : len(m)-1]
+					} else if ex.havocLocation(st, ec, m) {
 						return
 					}
 					tv := ec.evalSrc(m)
@@ -531,9 +539,13 @@ func (ex *Exec) builtin(f *Frame, st *State, x *ssa.Call, bi *ssa.Builtin) Val {
 	case "recover":
 		return VIface{U: w.st.fresh("recover", sortU)}
 	case "clear":
+		st.mapEpoch++
 		w.havocReach(st, arg(0), map[interface{}]bool{})
 		return VTuple{}
-	case "delete", "close", "print", "println":
+	case "delete":
+		st.mapEpoch++
+		return VTuple{}
+	case "close", "print", "println":
 		return VTuple{}
 	}
 	w.note("builtin " + bi.Name())
@@ -579,6 +591,7 @@ func (ex *Exec) runDefers(f *Frame, st *State, b *ssa.BasicBlock, i int, prev *s
 		if ex.prog.CS.isPure(name) {
 			continue
 		}
+		st.mapEpoch++
 		seen := map[interface{}]bool{}
 		for _, a := range args {
 			w.havocReach(st, a, seen)
